@@ -17,6 +17,9 @@ class BudgetExceeded(BaseException):
 
 
 _armed = [False]
+_first = [None]  # the first expiry within the current guarded call
+REFIRE = 0.02  # s of CPU time between repeated expiries
+stats = {"expiries_swallowed": 0}
 
 
 def _handler(signum, frame):
@@ -24,13 +27,21 @@ def _handler(signum, frame):
         # a timer signal that was already on its way when the guarded call
         # finished: ignore it (it must never fire outside the guarded region)
         return
-    _armed[0] = False
-    frames = []
-    f = frame
-    while f is not None and len(frames) < 12:
-        frames.append("%s:%s" % (f.f_code.co_filename.rsplit("/", 2)[-2] + "/" + f.f_code.co_filename.rsplit("/", 1)[-1], f.f_code.co_name))
-        f = f.f_back
-    raise BudgetExceeded(frames)
+    if _first[0] is None:
+        frames = []
+        f = frame
+        while f is not None and len(frames) < 12:
+            frames.append("%s:%s" % (f.f_code.co_filename.rsplit("/", 2)[-2] + "/" + f.f_code.co_filename.rsplit("/", 1)[-1], f.f_code.co_name))
+            f = f.f_back
+        _first[0] = BudgetExceeded(frames)
+    else:
+        stats["expiries_swallowed"] += 1
+    # The exception may be raised where Python discards it (a weak reference
+    # callback, __del__, a generator being finalised) or be swallowed by a bare
+    # ``except:`` of the code under test: keep firing until the guarded call
+    # has really ended.
+    signal.setitimer(signal.ITIMER_VIRTUAL, REFIRE)
+    raise _first[0]
 
 
 _installed = False
@@ -42,13 +53,21 @@ def run(fn, seconds):
     if not _installed:
         signal.signal(signal.SIGVTALRM, _handler)
         _installed = True
+    _first[0] = None
+    value = None
     _armed[0] = True
     signal.setitimer(signal.ITIMER_VIRTUAL, seconds)
     try:
         try:
-            return fn(), None
+            value = fn()
         finally:
             _armed[0] = False
-            signal.setitimer(signal.ITIMER_VIRTUAL, 0)
-    except BudgetExceeded as exc:
+    except BudgetExceeded:
+        pass
+    finally:
+        _armed[0] = False
+        signal.setitimer(signal.ITIMER_VIRTUAL, 0)
+    if _first[0] is not None:
+        exc, _first[0] = _first[0], None
         return None, exc
+    return value, None
